@@ -9,7 +9,7 @@ BOUNDS = {
              "wash schemes 1,2,3,4,'flush','reuse'; DiTi mode on/off; pass-through liquid_class / rack_id as abstract strings (length 0..40, may "
              "contain ';') and tip in {default, 3, (1,2), Tip.T8, Tip.Any}; <=2 split steps; mismatched argument lengths; 2-D (2x2) well arrays with a 2x2 nested "
              "volume list (four symbolic volumes, no splitting)",
-    "thorough": "k<=3 triples (2 candidates per side), <=3 split steps, 4 candidates for k=2, plates 3x2 and 8x2",
+    "thorough": "k=3 triples (2 candidates per side, no splitting), <=3 split steps for k=1, 4 candidates for k=2, plates 3x2 and 8x2, trough to trough",
 }
 OUTSIDE = "k beyond the bound, more split steps, other geometries; 2-D argument arrays larger than 2x2"
 ASSUMPTIONS = ["group membership of a record is decoded from its position field by the numbering formula (oracles/gwl.py)"]
@@ -25,9 +25,9 @@ def shards(tier):
         for sg, dg in geos:
             for pb in ("auto", "source", "destination"):
                 out.append(dict(dev=dev, op="transfer", sgeo=sg, dgeo=dg, k=2, steps=2, partition_by=pb, neg=True, ncand=2 if tier == "quick" else 4,
-                                washes=[1] if tier == "quick" else [1, "flush", "reuse"]))
-                if tier == "thorough":
-                    out.append(dict(dev=dev, op="transfer", sgeo=sg, dgeo=dg, k=3, steps=2, partition_by=pb, neg=True, ncand=2, washes=[1]))
+                                washes=[1]))
+                if tier == "thorough" and pb == "auto":
+                    out.append(dict(dev=dev, op="transfer", sgeo=sg, dgeo=dg, k=3, steps=1, partition_by=pb, neg=True, ncand=2, washes=[1], wl_max=common.BIG * 2))
             out.append(dict(dev=dev, op="transfer", sgeo=sg, dgeo=dg, k=1, steps=2 if tier == "quick" else 3, partition_by="auto", neg=True, kwargs=True,
                             washes=[1, "reuse"], ncand=2 if tier == "quick" else 4))
             out.append(dict(dev=dev, op="transfer", sgeo=sg, dgeo=dg, k=1, steps=2 if tier == "quick" else 3, partition_by="auto", neg=True,
